@@ -103,7 +103,7 @@ def nonterminals(g):
 
 def is_meta(sym):
     """State markers (.name) and mid-rule actions ({...}) occupy no input: the oracle ignores them."""
-    return sym.startswith(".") or sym.startswith("{")
+    return sym.startswith(".") or sym.startswith("{") or sym == "(?=" or sym.endswith(")")   # "(?= A & !B)" is printed verbatim, token by token
 
 
 def check_grammar(g):
